@@ -1,4 +1,6 @@
 import IofloModel.Lemmas.Literal
+import IofloModel.Lemmas.LiteralExp
+import IofloModel.Lemmas.LiteralPoint
 /-!
 # C17 — direct data literals convert to the documented typed values
 
@@ -277,6 +279,133 @@ theorem C17_roundtrip_decimal (neg : Bool) (a : Nat) (ds : Str) (hds : ∀ c ∈
 
 example : showDec true 12 "50".toList = "-12.50".toList ∧
     decValue true 12 "50".toList = .fin { neg := true, mant := 1250, exp := -2 } := by decide +kernel
+
+/-- **decimal numerals with an exponent** as Python writes them, `[-]digits.digits e(+|-)digits` (`1.5e-07`,
+`-2.0e+16`): in every literal context (all ten converters) the float whose exact value is that decimal times the
+power of ten.  (The form without a dot, `1e+16`, is not covered here; `1e5` without a sign is an integer in base 16:
+`C17_exponent_shadowed_by_hex`.) -/
+theorem C17_roundtrip_exponent (neg : Bool) (a : Nat) (ds : Str) (hds : ∀ c ∈ ds, isDigit c = true)
+    (eneg : Bool) (k : Nat) :
+    convert2Num (showExp neg a ds eneg k) = .ok (.float (expValue neg a ds eneg k)) ∧
+    convert2CoordNum (showExp neg a ds eneg k) = .ok (.float (expValue neg a ds eneg k)) ∧
+    convert2BoolCoordNum (showExp neg a ds eneg k) = .ok (.float (expValue neg a ds eneg k)) ∧
+    convert2StrBoolCoordNum (showExp neg a ds eneg k) = .ok (.float (expValue neg a ds eneg k)) ∧
+    convert2PointNum (showExp neg a ds eneg k) = .ok (.float (expValue neg a ds eneg k)) ∧
+    convert2CoordPointNum (showExp neg a ds eneg k) = .ok (.float (expValue neg a ds eneg k)) ∧
+    convert2BoolCoordPointNum (showExp neg a ds eneg k) = .ok (.float (expValue neg a ds eneg k)) ∧
+    convert2PathCoordPointNum (showExp neg a ds eneg k) = .ok (.float (expValue neg a ds eneg k)) ∧
+    convert2BoolPathCoordPointNum (showExp neg a ds eneg k) = .ok (.float (expValue neg a ds eneg k)) ∧
+    convert2StrBoolPathCoordPointNum (showExp neg a ds eneg k) = .ok (.float (expValue neg a ds eneg k)) := by
+  have sub : ∀ (pre : List Recog), (∀ r ∈ pre, r ∈ ordStr ++ ordBool ++ ordPath ++ ordCoord ++ ordPoint) →
+      firstOf (pre ++ ordNum) (showExp neg a ds eneg k) = .ok (.float (expValue neg a ds eneg k)) :=
+    fun pre h => firstOf_showExp h neg a ds hds eneg k
+  refine ⟨?_, ?_, ?_, ?_, ?_, ?_, ?_, ?_, ?_, ?_⟩
+  · rw [order_num]; exact sub [] (by simp)
+  · rw [order_coordNum]; exact sub _ (by intro r hr; simp only [List.mem_append]; simp [hr])
+  · rw [order_boolCoordNum]; exact sub _ (by
+      intro r hr; simp only [List.mem_append] at hr ⊢; rcases hr with h | h <;> simp [h])
+  · rw [order_goal]; unfold orderGoal; exact sub _ (by
+      intro r hr; simp only [List.mem_append] at hr ⊢; rcases hr with (h | h) | h <;> simp [h])
+  · rw [order_pointNum]; exact sub _ (by intro r hr; simp only [List.mem_append]; simp [hr])
+  · rw [order_coordPointNum]; exact sub _ (by
+      intro r hr; simp only [List.mem_append] at hr ⊢; rcases hr with h | h <;> simp [h])
+  · rw [order_boolCoordPointNum]; exact sub _ (by
+      intro r hr; simp only [List.mem_append] at hr ⊢; rcases hr with (h | h) | h <;> simp [h])
+  · rw [order_pathCoordPointNum]; exact sub _ (by
+      intro r hr; simp only [List.mem_append] at hr ⊢; rcases hr with (h | h) | h <;> simp [h])
+  · rw [order_boolPathCoordPointNum]; exact sub _ (by
+      intro r hr; simp only [List.mem_append] at hr ⊢; rcases hr with ((h | h) | h) | h <;> simp [h])
+  · rw [order_direct]; unfold orderDirect; exact sub _ (by intro r hr; exact hr)
+
+example : showExp true 1 "50".toList true 7 = "-1.50e-7".toList ∧
+    expValue true 1 "50".toList true 7 = .fin { neg := true, mant := 150, exp := -9 } := by decide +kernel
+
+/-! ### points with fractional coordinates, `<dec>x<dec>y`, … (direct data): every coordinate a decimal numeral
+`[-]digits.digits`, the value its exact decimal -/
+
+theorem C17_roundtrip_point_xy_decimal (n1 n2 : Bool) (a1 a2 : Nat) (d1 d2 : Str)
+    (h1 : ∀ c ∈ d1, isDigit c = true) (h2 : ∀ c ∈ d2, isDigit c = true) :
+    convert2StrBoolPathCoordPointNum (showDec n1 a1 d1 ++ 'x' :: (showDec n2 a2 d2 ++ ['y']))
+      = .ok (.point .xy [decValue n1 a1 d1, decValue n2 a2 d2]) := by
+  have s1 : IsSep 'x' := sep_of (by decide) (by decide)
+  have s2 : IsSep 'y' := sep_of (by decide) (by decide)
+  rw [order_direct, direct_to_points (pre_declines_dec_head n1 a1 d1 _) (coord_declines_dec n1 a1 d1 _)]
+  simp [ordPoint, firstOf_cons, rPoint2,
+    point2_accept_dec true sX sY n1 n2 a1 a2 d1 d2 h1 h2 s1 s2 (by decide) (by decide)]
+
+theorem C17_roundtrip_point_ne_decimal (n1 n2 : Bool) (a1 a2 : Nat) (d1 d2 : Str)
+    (h1 : ∀ c ∈ d1, isDigit c = true) (h2 : ∀ c ∈ d2, isDigit c = true) :
+    convert2StrBoolPathCoordPointNum (showDec n1 a1 d1 ++ 'n' :: (showDec n2 a2 d2 ++ ['e']))
+      = .ok (.point .ne [decValue n1 a1 d1, decValue n2 a2 d2]) := by
+  have s1 : IsSep 'n' := sep_of (by decide) (by decide)
+  have s2 : IsSep 'e' := sep_of (by decide) (by decide)
+  rw [order_direct, direct_to_points (pre_declines_dec_head n1 a1 d1 _) (coord_declines_dec n1 a1 d1 _)]
+  simp [ordPoint, firstOf_cons, rPoint2,
+    point2_decline_sep_dec true sX sY n1 a1 d1 h1 s1 _ (by decide),
+    point2_accept_dec false sN sE n1 n2 a1 a2 d1 d2 h1 h2 s1 s2 (by decide) (by decide)]
+
+theorem C17_roundtrip_point_fs_decimal (n1 n2 : Bool) (a1 a2 : Nat) (d1 d2 : Str)
+    (h1 : ∀ c ∈ d1, isDigit c = true) (h2 : ∀ c ∈ d2, isDigit c = true) :
+    convert2StrBoolPathCoordPointNum (showDec n1 a1 d1 ++ 'f' :: (showDec n2 a2 d2 ++ ['s']))
+      = .ok (.point .fs [decValue n1 a1 d1, decValue n2 a2 d2]) := by
+  have s1 : IsSep 'f' := sep_of (by decide) (by decide)
+  have s2 : IsSep 's' := sep_of (by decide) (by decide)
+  rw [order_direct, direct_to_points (pre_declines_dec_head n1 a1 d1 _) (coord_declines_dec n1 a1 d1 _)]
+  simp [ordPoint, firstOf_cons, rPoint2,
+    point2_decline_sep_dec true sX sY n1 a1 d1 h1 s1 _ (by decide),
+    point2_decline_sep_dec false sN sE n1 a1 d1 h1 s1 _ (by decide),
+    point2_accept_dec false sF sS n1 n2 a1 a2 d1 d2 h1 h2 s1 s2 (by decide) (by decide)]
+
+theorem C17_roundtrip_point_xyz_decimal (n1 n2 n3 : Bool) (a1 a2 a3 : Nat) (d1 d2 d3 : Str)
+    (h1 : ∀ c ∈ d1, isDigit c = true) (h2 : ∀ c ∈ d2, isDigit c = true) (h3 : ∀ c ∈ d3, isDigit c = true) :
+    convert2StrBoolPathCoordPointNum
+        (showDec n1 a1 d1 ++ 'x' :: (showDec n2 a2 d2 ++ 'y' :: (showDec n3 a3 d3 ++ ['z'])))
+      = .ok (.point .xyz [decValue n1 a1 d1, decValue n2 a2 d2, decValue n3 a3 d3]) := by
+  have s1 : IsSep 'x' := sep_of (by decide) (by decide)
+  have s2 : IsSep 'y' := sep_of (by decide) (by decide)
+  have s3 : IsSep 'z' := sep_of (by decide) (by decide)
+  rw [order_direct, direct_to_points (pre_declines_dec_head n1 a1 d1 _) (coord_declines_dec n1 a1 d1 _)]
+  simp [ordPoint, firstOf_cons, rPoint2, rPoint3,
+    point2_decline_long_dec true sX sY n1 n2 n3 a1 a2 a3 d1 d2 d3 h1 h2 s1 s2 ['z'],
+    point2_decline_sep_dec false sN sE n1 a1 d1 h1 s1 _ (by decide),
+    point2_decline_sep_dec false sF sS n1 a1 d1 h1 s1 _ (by decide),
+    point3_accept_dec sX sY sZ n1 n2 n3 a1 a2 a3 d1 d2 d3 h1 h2 h3 s1 s2 s3 (by decide) (by decide) (by decide)]
+
+theorem C17_roundtrip_point_ned_decimal (n1 n2 n3 : Bool) (a1 a2 a3 : Nat) (d1 d2 d3 : Str)
+    (h1 : ∀ c ∈ d1, isDigit c = true) (h2 : ∀ c ∈ d2, isDigit c = true) (h3 : ∀ c ∈ d3, isDigit c = true) :
+    convert2StrBoolPathCoordPointNum
+        (showDec n1 a1 d1 ++ 'n' :: (showDec n2 a2 d2 ++ 'e' :: (showDec n3 a3 d3 ++ ['d'])))
+      = .ok (.point .ned [decValue n1 a1 d1, decValue n2 a2 d2, decValue n3 a3 d3]) := by
+  have s1 : IsSep 'n' := sep_of (by decide) (by decide)
+  have s2 : IsSep 'e' := sep_of (by decide) (by decide)
+  have s3 : IsSep 'd' := sep_of (by decide) (by decide)
+  rw [order_direct, direct_to_points (pre_declines_dec_head n1 a1 d1 _) (coord_declines_dec n1 a1 d1 _)]
+  simp [ordPoint, firstOf_cons, rPoint2, rPoint3,
+    point2_decline_sep_dec true sX sY n1 a1 d1 h1 s1 _ (by decide),
+    point2_decline_long_dec false sN sE n1 n2 n3 a1 a2 a3 d1 d2 d3 h1 h2 s1 s2 ['d'],
+    point2_decline_sep_dec false sF sS n1 a1 d1 h1 s1 _ (by decide),
+    point3_decline_sep_dec sX sY sZ n1 a1 d1 h1 s1 _ (by decide),
+    point3_accept_dec sN sE sD n1 n2 n3 a1 a2 a3 d1 d2 d3 h1 h2 h3 s1 s2 s3 (by decide) (by decide) (by decide)]
+
+theorem C17_roundtrip_point_fsb_decimal (n1 n2 n3 : Bool) (a1 a2 a3 : Nat) (d1 d2 d3 : Str)
+    (h1 : ∀ c ∈ d1, isDigit c = true) (h2 : ∀ c ∈ d2, isDigit c = true) (h3 : ∀ c ∈ d3, isDigit c = true) :
+    convert2StrBoolPathCoordPointNum
+        (showDec n1 a1 d1 ++ 'f' :: (showDec n2 a2 d2 ++ 's' :: (showDec n3 a3 d3 ++ ['b'])))
+      = .ok (.point .fsb [decValue n1 a1 d1, decValue n2 a2 d2, decValue n3 a3 d3]) := by
+  have s1 : IsSep 'f' := sep_of (by decide) (by decide)
+  have s2 : IsSep 's' := sep_of (by decide) (by decide)
+  have s3 : IsSep 'b' := sep_of (by decide) (by decide)
+  rw [order_direct, direct_to_points (pre_declines_dec_head n1 a1 d1 _) (coord_declines_dec n1 a1 d1 _)]
+  simp [ordPoint, firstOf_cons, rPoint2, rPoint3,
+    point2_decline_sep_dec true sX sY n1 a1 d1 h1 s1 _ (by decide),
+    point2_decline_sep_dec false sN sE n1 a1 d1 h1 s1 _ (by decide),
+    point2_decline_long_dec false sF sS n1 n2 n3 a1 a2 a3 d1 d2 d3 h1 h2 s1 s2 ['b'],
+    point3_decline_sep_dec sX sY sZ n1 a1 d1 h1 s1 _ (by decide),
+    point3_decline_sep_dec sN sE sD n1 a1 d1 h1 s1 _ (by decide),
+    point3_accept_dec sF sS sB n1 n2 n3 a1 a2 a3 d1 d2 d3 h1 h2 h3 s1 s2 s3 (by decide) (by decide) (by decide)]
+
+example : showDec true 1 "5".toList ++ 'x' :: (showDec false 0 "25".toList ++ ['y']) = "-1.5x0.25y".toList := by
+  decide +kernel
 
 /-! ## the values Python treats as false
 
